@@ -378,6 +378,21 @@ def run_doc(inp, rng, stats):
     fmt, noise = inp["fmt"], inp["noise"]
     cdoc = concretise_doc(inp["doc"], {}, rng) if not inp.get("concrete") else inp["doc"]
     lines = render_doc(fmt, cdoc, rng)
+    indented = False
+    if fmt == "json" and cdoc["t"] not in ("empty", "bad"):
+        # white space around JSON tokens is insignificant: indent the document's lines (all alike, or each on its
+        # own), pad them on the right; the start line after noise may thus begin with blanks or a tab
+        how = rng.randrange(5)
+        if how in (1, 2):
+            pre = rng.choice([" ", "  ", "   ", "    ", "\t"])
+            lines = [pre + l for l in lines]
+        elif how == 3:
+            lines = [rng.choice(["", " ", "  ", "    ", "\t"]) + l for l in lines]
+        if how == 4 or rng.random() < 0.2:
+            lines = [l + rng.choice(["", " ", "  "]) for l in lines]
+        indented = lines[0][:1] in (" ", "\t")
+        if json.loads("\n".join(lines)) != to_py(cdoc):
+            raise Machinery("indented json rendering does not load to the value")
     if fmt == "json":
         pool = ["WARNING: plugin loaded", "Loaded plugins: a, b", "  note: something (x)", "= header =",
                 "time=12 level=info", "\"quoted\" noise", "12345 packages", "]{ not a start"]
@@ -424,7 +439,7 @@ def run_doc(inp, rng, stats):
     except Exception as e:      # noqa
         outcome = exc_name(e)
     stats["doc_" + outcome.split(":")[0]] = stats.get("doc_" + outcome.split(":")[0], 0) + 1
-    return [dict(ev="doc", fmt=fmt, noise=noise, doc=cdoc, outcome=outcome, value=value,
+    return [dict(ev="doc", fmt=fmt, noise=noise, doc=cdoc, outcome=outcome, value=value, ind=indented,
                  text=[l[:200] for l in lines[:8]])]
 
 
